@@ -278,6 +278,43 @@ fn ref_scalars(s: u64) -> u64 {
     (0..16).fold(r, |acc, k| acc ^ v[k].rotate_left(k as u32))
 }
 
+/// 1000 scopes in a row (and 300 nested pairs): scope number k behaves like scope number 1
+#[allow(static_mut_refs)]
+fn repetition(r: &mut Rep) {
+    for if0 in [false, true] {
+        let c = cpu();
+        c.rflags_sys = if if0 { 0x202 } else { 0x2 };
+        c.clear_events();
+        unsafe { OBS = Obs { bodies: 0, if_in_body_nonzero: 0, if_not_restored: 0 } };
+        let res = run_stepped(|| {
+            let mut acc = 0u64;
+            for k in 0..1000u64 {
+                let before = cpu().interrupts_enabled();
+                acc = acc.rotate_left(3) ^ interrupts::without_interrupts(|| {
+                    unsafe {
+                        OBS.bodies += 1;
+                        if cpu().interrupts_enabled() {
+                            OBS.if_in_body_nonzero += 1;
+                        }
+                    }
+                    if k % 3 == 0 { interrupts::without_interrupts(|| k ^ 0x55) } else { k }
+                });
+                if cpu().interrupts_enabled() != before {
+                    unsafe { OBS.if_not_restored += 1 };
+                }
+            }
+            acc
+        });
+        let exp = (0..1000u64).fold(0u64, |acc, k| acc.rotate_left(3) ^ if k % 3 == 0 { k ^ 0x55 } else { k });
+        let o = unsafe { &OBS };
+        r.ev(true);
+        r.transitions += c.evs().len() as u64;
+        if res != Ok(exp) || o.bodies != 1000 || o.if_in_body_nonzero != 0 || o.if_not_restored != 0 || c.interrupts_enabled() != if0 {
+            r.viol("C17|without_interrupts|scope-number-k-differs-from-the-first-scope", &format!("repeat {}", if0 as u8), &format!("result ok {} bodies {} enabled-in-body {} not-restored {}", res == Ok(exp), o.bodies, o.if_in_body_nonzero, o.if_not_restored));
+        }
+    }
+}
+
 fn leaf_shapes(r: &mut Rep) {
     let shapes: &[(&str, fn(u64) -> u64, fn(u64) -> u64)] = &[
         ("leaf1", leaf1, ref1), ("leaf2", leaf2, ref2), ("leaf3n", leaf3, ref3), ("leaf4", leaf4, ref4), ("leaf6n", leaf6, ref6), ("leaf8", leaf8, ref8),
@@ -315,6 +352,8 @@ pub fn run(a: &Args) {
             let mut pos = 0;
             let tree = parse(t[1].as_bytes(), &mut pos);
             program_case(&mut r, &tree, t[2] == "1", u64::from_str_radix(t[3].trim_start_matches("0x"), 16).unwrap());
+        } else if t[0] == "repeat" {
+            repetition(&mut r);
         } else if t[0] == "leaf" {
             leaf_shapes(&mut r);
         } else {
@@ -331,9 +370,13 @@ pub fn run(a: &Args) {
         progs.extend(gen(4, 1));
     }
     let mut chain = wi(vec![]);
-    for _ in 0..8 {
+    for d in 1..=1000 {
         chain = wi(vec![chain]);
-        progs.push(chain.clone());
+        // "for every nesting depth": every depth to 8, then depths around every power of two up to 1024 (a counter of open
+        // sections narrower than the nesting depth would wrap there)
+        if d <= 8 || matches!(d, 16 | 64 | 255 | 256 | 257 | 300) || (a.thorough() && matches!(d, 15 | 17 | 31 | 32 | 33 | 63 | 65 | 127 | 128 | 129 | 254 | 511 | 512 | 513 | 1000)) {
+            progs.push(chain.clone());
+        }
     }
     // programs with flag-flipping scopes: all trees of depth <= 2 with <= 2 siblings over {WI, Flip}, and every chain of length <= 5
     fn gen2(depth: u32) -> Vec<Tree> {
@@ -372,7 +415,11 @@ pub fn run(a: &Args) {
             continue;
         }
         for if0 in [false, true] {
+            let deep = show(t).len() > 40;
             for seed in [0u64, 0xdead_beef_0123_4567] {
+                if deep && seed != 0 {
+                    continue; // deep chains: one result seed
+                }
                 guarded(&mut r, "C17|without_interrupts|unexpected-panic", || format!("prog {} {} {:#x}", show(t), if0 as u8, seed), |r| program_case(r, t, if0, seed));
             }
         }
@@ -380,6 +427,9 @@ pub fn run(a: &Args) {
     if a.shard == 0 {
         guarded(&mut r, "C17|enable/disable/are_enabled|unexpected-panic", || "flagops".into(), |r| simple_ops(r));
         guarded(&mut r, "C17|without_interrupts|unexpected-panic", || "leaf".into(), |r| leaf_shapes(r));
+    }
+    if a.shard == 1 % a.nshards {
+        guarded(&mut r, "C17|without_interrupts|unexpected-panic", || "repeat".into(), |r| repetition(r));
     }
     r.states = r.evals;
     r.exhaustive = true;
